@@ -969,6 +969,9 @@ def run(rep):
                "first must give the result of the same operation on a fresh Parameters object (which itself must agree with the "
                "bit-serial model); create = short simulation of crc / match_detected on a valid and a corrupted codeword")
 
+    # the task kinds with the longest single tasks go first so that they do not form the tail of the pool
+    order = {"hw_cat": 0, "seq": 1, "proc": 2, "hw_small": 3, "sw_cat": 4, "sw_small": 5}
+    tasks.sort(key=lambda t: order[t[0]])
     flags = set()
     for kind, part in pmap(_dispatch, rotate(tasks, rep.seed), rep.procs):
         flags.update(part.pop("flags", []))
